@@ -39,6 +39,13 @@ def analyse(fnode):
         if isinstance(x, ast.AugAssign) and isinstance(x.op, ast.Add) and isinstance(x.target, ast.Name) \
                 and isinstance(x.value, ast.Constant) and x.value.value == 1:
             incs.setdefault(x.target.id, []).append(x)
+        # the same written out: c = c + 1 / c = 1 + c
+        if isinstance(x, ast.Assign) and len(x.targets) == 1 and isinstance(x.targets[0], ast.Name) and isinstance(x.value, ast.BinOp) \
+                and isinstance(x.value.op, ast.Add):
+            l_, r_ = x.value.left, x.value.right
+            for a_, b_ in ((l_, r_), (r_, l_)):
+                if isinstance(a_, ast.Name) and a_.id == x.targets[0].id and isinstance(b_, ast.Constant) and b_.value == 1:
+                    incs.setdefault(x.targets[0].id, []).append(x)
     counters = {c for c in incs if c in zero}
     if not counters:
         return []
